@@ -10,7 +10,12 @@ RULE = ("text: generated documents (brace-, quote-, backslash- and '#'-bearing s
         "the slice reader reads from there); short inputs x all compositions of the reads x caps 1,2,3,8; 8+ braces in one SWAR word at every "
         "alignment, quotes/comments several buffers long, CR/VT/FF inside comments; skip_unquoted_value gap variants (LF TAB TAB TAB after a "
         "comment across a refill, ';', end of input inside a comment); count_chunk / contains_zero_byte / repeat_byte against a per-lane oracle; "
-        "binary: the whole rest of the stream after one and after two skips, every payload kind filled with id-looking words")
+        "binary: the whole rest of the stream after one and after two skips, every payload kind filled with id-looking words. "
+        "Wave 6 (props/C09_size.py): one size dimension at a time up the ladder 0 1 2 3 7 8 9 .. 65535 65536 with the landing offset "
+        "known by construction: nesting depth (to 70000), every word over { } x in one SWAR chunk, skipped length (to 2^20+3) and refills, "
+        "quote / comment length, token and sibling counts, tokens before the skip, buffer size x offset of the close around the window end, "
+        "gap of skip_unquoted_value, up to 65536 skips on one reader; binary: depth, counts per payload kind, string lengths with capacity "
+        "= token and a carry-over above 65535 bytes, first read cut at every byte, every non-reserved id; release and debug builds")
 TRUSTED = []
 ASSUMPTIONS = []
 # a_c09 (wave 4): the binary half compares the debug build with the release build (stream skip_debug_build); without this
@@ -33,6 +38,12 @@ def run(ctx):
     if C09_bin and hasattr(C09_bin, "run_binary_more"):
         C09_bin.run_binary_more(ctx)
     # <<< a_c09
+    # >>> s_c09 (wave 6): size / boundary ladders (depth, braces per SWAR chunk, skipped length and refills, quote / comment
+    #     length, token counts, buffer size x close offset, gap of skip_unquoted_value, histories of skips, u16 string lengths
+    #     with capacity = token, carry-over > 65535, every id), release and debug builds
+    from props import C09_size
+    C09_size.run_size(ctx)
+    # <<< s_c09
 
 
 def search(ctx):
